@@ -66,16 +66,30 @@ fn rtpmap_of(kind: &str, pt: u64, codec: &str) -> (String, Option<String>) {
     (map, fmtp)
 }
 
-fn render(desc: &Value, mode: &str, version: u64) -> String {
+/// `extras`: "none" | "sip" | "browser" - lines real peers send that the stack does not interpret for the answer
+/// (bandwidth, ptime, tool, msid, ssrc-group, candidates ...); they are there for the parse/print round trip.
+fn render(desc: &Value, mode: &str, version: u64, extras: &str) -> String {
     let secs = desc["secs"].as_array().unwrap();
     let mut s = String::new();
     s.push_str("v=0\r\n");
     s.push_str(&format!("o=- 4611731400430051336 {version} IN IP4 127.0.0.1\r\n"));
-    s.push_str("s=-\r\n");
+    s.push_str(if extras == "sip" { "s=SIP Call\r\n" } else { "s=-\r\n" });
+    if extras == "sip" {
+        s.push_str("i=A session with extras\r\n");
+    }
     if mode != "WebRtc" {
         s.push_str("c=IN IP4 127.0.0.1\r\n");
     }
+    if extras == "sip" {
+        s.push_str("b=AS:256\r\n");
+    }
     s.push_str("t=0 0\r\n");
+    if extras == "sip" {
+        s.push_str("a=tool:verif 1.0\r\n");
+    }
+    if extras == "browser" {
+        s.push_str("a=extmap-allow-mixed\r\n");
+    }
     let bundle: Vec<&str> = desc["bundle"].as_array().unwrap().iter().map(|m| m.as_str().unwrap()).collect();
     if !bundle.is_empty() {
         s.push_str(&format!("a=group:BUNDLE {}\r\n", bundle.join(" ")));
@@ -107,8 +121,16 @@ fn render(desc: &Value, mode: &str, version: u64) -> String {
             ),
         };
         s.push_str(&format!("m={kind} {port} {proto} {fmts}\r\n"));
+        if extras == "sip" && rtp {
+            s.push_str("b=TIAS:64000\r\n");
+        }
         if mode == "WebRtc" {
             s.push_str("c=IN IP4 0.0.0.0\r\n");
+            if extras == "browser" {
+                s.push_str("a=rtcp:9 IN IP4 0.0.0.0\r\n");
+                s.push_str(&format!("a=candidate:1 1 udp 2130706431 127.0.0.1 {} typ host\r\n", 45000 + i));
+                s.push_str("a=end-of-candidates\r\n");
+            }
             s.push_str("a=ice-ufrag:Vf4x\r\n");
             s.push_str("a=ice-pwd:hYw2Sy1lZ9hQbV0Yk2mV4c3B\r\n");
             s.push_str("a=ice-options:trickle\r\n");
@@ -152,6 +174,22 @@ fn render(desc: &Value, mode: &str, version: u64) -> String {
                 s.push_str("a=crypto:1 AES_CM_128_HMAC_SHA1_80 inline:WVNfX19zZW1jdGwgKCkgewkyMjA7fQp9CnVubGVz\r\n");
             }
             let dir = sec["dir"].as_str().unwrap();
+            if sec["sim"] == true {
+                s.push_str("a=rid:h send\r\na=rid:l send\r\na=simulcast:send h;l\r\n");
+            }
+            if extras == "sip" {
+                s.push_str("a=ptime:20\r\na=maxptime:150\r\n");
+            }
+            if extras == "browser" {
+                s.push_str("a=rtcp-rsize\r\n");
+                if dir == "sendrecv" || dir == "sendonly" {
+                    s.push_str(&format!("a=msid:stream{i} track{i}\r\n"));
+                    if kind == "video" && !rtx.is_empty() {
+                        s.push_str(&format!("a=ssrc-group:FID {} {}\r\n", 5000 + i, 6000 + i));
+                        s.push_str(&format!("a=ssrc:{} cname:offerer\r\n", 6000 + i));
+                    }
+                }
+            }
             if dir == "sendrecv" || dir == "sendonly" {
                 s.push_str(&format!("a=ssrc:{} cname:offerer\r\n", 5000 + i));
             }
@@ -256,6 +294,7 @@ fn abstract_desc(d: &SessionDescription) -> Value {
             "mux": m.attributes.iter().any(|a| a.key == "rtcp-mux"),
             "setup": attr("setup").into_iter().next().unwrap_or_else(|| "none".into()),
             "port0": m.port == 0,
+            "sim": m.attributes.iter().any(|a| a.key == "simulcast"),
             "fmts": if rtp { vec![] } else { m.formats.iter().map(|f| f.to_ascii_lowercase()).collect::<Vec<_>>() },
         }));
     }
@@ -325,6 +364,21 @@ fn roundtrip(d: &SessionDescription) -> String {
     }
 }
 
+/// EXT: lines of the peer's text that printing the parsed description does not reproduce (as a line, anywhere).
+fn text_lost(text: &str, parsed: &SessionDescription) -> Vec<String> {
+    let printed = parsed.to_sdp_string();
+    let have: std::collections::HashSet<&str> = printed.lines().map(|l| l.trim()).collect();
+    let mut lost: Vec<String> = text
+        .lines()
+        .map(|l| l.trim())
+        .filter(|l| !l.is_empty() && !have.contains(l))
+        .map(|l| l.split(':').next().unwrap_or(l).chars().take(24).collect::<String>())
+        .collect();
+    lost.sort();
+    lost.dedup();
+    lost
+}
+
 // ---------------------------------------------------------------------------------- configuration
 
 fn make_pc(cfg: &Value) -> PeerConnection {
@@ -366,7 +420,8 @@ fn make_pc(cfg: &Value) -> PeerConnection {
     }
     let pc = PeerConnection::new(c);
     let sr = TransceiverDirection::SendRecv;
-    match cfg["pre"].as_str().unwrap() {
+    // (in a "swapped" negotiation the local side adds what it offers itself: see swapped_previous)
+    match if cfg["neg"] == "swapped" { "none" } else { cfg["pre"].as_str().unwrap() } {
         "audio" => {
             pc.add_transceiver(MediaKind::Audio, sr);
         }
@@ -409,7 +464,7 @@ async fn answer_to(pc: &PeerConnection, text: &str, rts: &mut Vec<Value>, what: 
         Ok(Err(e)) => return Err(json!({"stage": "parse", "err": e.to_string()})),
         Err(p) => return Err(json!({"stage": "parse", "panic": p})),
     };
-    rts.push(json!({"what": format!("{what} offer (parsed)"), "result": roundtrip(&parsed)}));
+    rts.push(json!({"what": format!("{what} offer (parsed)"), "result": roundtrip(&parsed), "text_lost": text_lost(text, &parsed)}));
     let pc2 = pc.clone();
     match spawned(async move { pc2.set_remote_description(parsed).await }).await {
         Ok(Ok(())) => {}
@@ -427,6 +482,50 @@ async fn answer_to(pc: &PeerConnection, text: &str, rts: &mut Vec<Value>, what: 
     }
 }
 
+/// "swapped" previous negotiation: the local side offers (one transceiver / data channel per section of `prev`),
+/// the peer's answer is `prev` rendered as an answer. Every description parsed from the peer is round-tripped.
+async fn swapped_previous(pc: &PeerConnection, prev: &Value, mode: &str, extras: &str, rts: &mut Vec<Value>) -> Result<(), Value> {
+    for sec in prev["secs"].as_array().unwrap() {
+        match sec["kind"].as_str().unwrap() {
+            "audio" => {
+                pc.add_transceiver(MediaKind::Audio, TransceiverDirection::SendRecv);
+            }
+            "video" => {
+                pc.add_transceiver(MediaKind::Video, TransceiverDirection::SendRecv);
+            }
+            "application" => {
+                let _ = pc.create_data_channel("verif", None);
+            }
+            _ => {
+                pc.add_transceiver(MediaKind::Image, TransceiverDirection::SendRecv);
+            }
+        }
+    }
+    let pc2 = pc.clone();
+    let offer = match spawned(async move { pc2.create_offer().await }).await {
+        Ok(Ok(o)) => o,
+        Ok(Err(e)) => return Err(json!({"stage": "swapped create_offer", "err": e.to_string()})),
+        Err(p) => return Err(json!({"stage": "swapped create_offer", "panic": p})),
+    };
+    rts.push(json!({"what": "local offer (produced)", "result": roundtrip(&offer)}));
+    if let Err(e) = pc.set_local_description(offer) {
+        return Err(json!({"stage": "swapped set_local", "err": e.to_string()}));
+    }
+    let text = render(prev, mode, 2, extras);
+    let parsed = match catch(|| SessionDescription::parse(SdpType::Answer, &text)) {
+        Ok(Ok(d)) => d,
+        Ok(Err(e)) => return Err(json!({"stage": "swapped parse answer", "err": e.to_string()})),
+        Err(p) => return Err(json!({"stage": "swapped parse answer", "panic": p})),
+    };
+    rts.push(json!({"what": "peer answer (parsed)", "result": roundtrip(&parsed), "text_lost": text_lost(&text, &parsed)}));
+    let pc2 = pc.clone();
+    match spawned(async move { pc2.set_remote_description(parsed).await }).await {
+        Ok(Ok(())) => Ok(()),
+        Ok(Err(e)) => Err(json!({"stage": "swapped set_remote(answer)", "err": e.to_string()})),
+        Err(p) => Err(json!({"stage": "swapped set_remote(answer)", "panic": p})),
+    }
+}
+
 /// SDP texts are only written on request (VERIF_KEEP_SDP=1): they are 90% of the output volume.
 fn keep_sdp() -> bool {
     std::env::var("VERIF_KEEP_SDP").is_ok_and(|v| v == "1")
@@ -435,13 +534,22 @@ fn keep_sdp() -> bool {
 async fn run_one(i: usize, rec: Value) -> Value {
     let cfg = &rec["cfg"];
     let mode = cfg["mode"].as_str().unwrap();
+    let extras = rec["extras"].as_str().unwrap_or("none");
     let pc = make_pc(cfg);
     let mut rts = Vec::new();
-    let mut out = json!({"i": i, "offer": rec["offer"], "prev": rec["prev"], "cfg": cfg, "accepted": false, "answer": {"secs": [], "bundle": []},
+    let mut out = json!({"i": i, "offer": rec["offer"], "prev": rec["prev"], "extras": extras, "cfg": cfg, "accepted": false, "answer": {"secs": [], "bundle": []},
                          "roundtrip_ok": true, "render_ok": true});
     let mut version = 2;
+    if cfg["neg"] == "swapped" {
+        version += 1;
+        if let Err(e) = swapped_previous(&pc, &rec["prev"], mode, extras, &mut rts).await {
+            out["not_accepted"] = json!({"previous": e});
+            pc.close();
+            return out;
+        }
+    }
     if cfg["neg"] == "subsequent" || cfg["neg"] == "grow" {
-        let text = render(&rec["prev"], mode, version);
+        let text = render(&rec["prev"], mode, version, extras);
         version += 1;
         match answer_to(&pc, &text, &mut rts, "previous").await {
             Ok(a) => {
@@ -458,7 +566,7 @@ async fn run_one(i: usize, rec: Value) -> Value {
             }
         }
     }
-    let text = render(&rec["offer"], mode, version);
+    let text = render(&rec["offer"], mode, version, extras);
     // the renderer and the abstraction must be inverse on the offer, or the verdict would be about the harness
     if let Ok(d) = SessionDescription::parse(SdpType::Offer, &text) {
         let back = abstract_desc(&d);
@@ -494,6 +602,14 @@ async fn run_one(i: usize, rec: Value) -> Value {
     let bad: Vec<&Value> = rts.iter().filter(|r| r["result"].as_str().is_some_and(|s| s.starts_with("different"))).collect();
     out["roundtrip_ok"] = json!(bad.is_empty());
     out["roundtrip_reordered"] = json!(rts.iter().any(|r| r["result"] == "reordered"));
+    let mut lost: Vec<String> = rts
+        .iter()
+        .flat_map(|r| r["text_lost"].as_array().cloned().unwrap_or_default())
+        .filter_map(|v| v.as_str().map(|s| s.to_string()))
+        .collect();
+    lost.sort();
+    lost.dedup();
+    out["text_lost"] = json!(lost);
     out["roundtrip"] = json!(rts);
     pc.close();
     out
